@@ -54,8 +54,8 @@ type c12World struct {
 	Cfg     URLCfg   `json:"cfg"`
 	Stpp    []string `json:"stpp,omitempty"`
 	Wvtt    []string `json:"wvtt,omitempty"`
-	CueDur  int      `json:"cuedur"` // 0 = parameter absent (documented default 900 ms)
-	Region  int      `json:"region"` // -1 = parameter absent (documented default 0)
+	CueDur  int      `json:"cuedur"`            // 0 = parameter absent (documented default 900 ms)
+	Region  int      `json:"region"`            // -1 = parameter absent (documented default 0)
 	Periods int      `json:"periods,omitempty"` // > 0: the MPD is also requested as periods_N; every Period's subtitle sets must mirror its video set
 }
 
